@@ -160,6 +160,7 @@ let parse_opts s =
    discriminant order, so index = idx_of (checked by the correspondence itself) *)
 let run_op (e : med) (words : string list) : (med * string) Lib.outcome =
   let ok2 r = match r with Lib.Ok (e', b) -> Lib.Ok (e', b01 b) | Lib.Err x -> Lib.Err x | Lib.Panic s -> Lib.Panic s | Lib.OutOfFuel -> Lib.OutOfFuel in
+  let ok1 r tag = match r with Lib.Ok e' -> Lib.Ok (e', tag) | Lib.Err x -> Lib.Err x | Lib.Panic s -> Lib.Panic s | Lib.OutOfFuel -> Lib.OutOfFuel in
   match words with
   | [ "key"; idx; code; uni; s; c; cl; n ] ->
       let ev = { kindex = n_of_int (int_of_string idx); kcode = n_of_int (int_of_string code);
@@ -173,7 +174,7 @@ let run_op (e : med) (words : string list) : (med * string) Lib.outcome =
   | [ "commit" ] -> ok2 (m_commit conv_oracle e)
   | [ "clear" ] -> Lib.Ok (m_clear e, "-")
   | [ "ack" ] -> Lib.Ok (m_ack e, "-")
-  | [ "opts"; o ] -> Lib.Ok (m_set_options e (parse_opts o), "-")
+  | [ "opts"; o ] -> ok1 (m_set_options e (parse_opts o)) "-"
   | [ "engine"; k ] -> Lib.Ok (m_set_engine e (match int_of_string k with 0 -> EngSimple | 1 -> EngChewing | _ -> EngFuzzy), "-")
   | [ "clearsyl" ] -> Lib.Ok (m_clear_syl e, "-")
   | [ "jnext" ] -> ok2 (m_jump_next e)
@@ -186,7 +187,7 @@ let run_op (e : med) (words : string list) : (med * string) Lib.outcome =
        | _ -> failwith "learn")
   | [ "unlearn"; kt ] ->
       (match split '|' kt with
-       | [ k; t ] -> Lib.Ok (m_unlearn e (ns_of '.' k) (ns_of '.' t), "1")
+       | [ k; t ] -> ok1 (m_unlearn e (ns_of '.' k) (ns_of '.' t)) "1"
        | _ -> failwith "unlearn")
   | _ -> failwith ("bad op " ^ String.concat " " words)
 
